@@ -623,6 +623,50 @@ Definition bear_with (proto : val) (args : list val) (who : string) (zero : opti
   | Some _ => tyerr (who ++ "#bear requires obj literal src")
   end.
 
+Fixpoint arr_has_loop (env : nat) (x : val) (l : list val) : M val :=
+  match l with
+  | [] => ret (VBool false)
+  | e :: t => r <- catch (callprop env e "==" [x] []) ;;
+              match r with
+              | inl v => if is_true v then ret (VBool true) else arr_has_loop env x t
+              | inr _ => arr_has_loop env x t
+              end
+  end.
+
+Fixpoint arr_O_loop (st : state) (l : list val) (acc : list (string * val)) : M (list (string * val)) :=
+  match l with
+  | [] => ret acc
+  | e :: t =>
+      match as_arr W st e with
+      | Some (_, [k; v]) =>
+          match as_str W st k with
+          | Some (_, ks) => arr_O_loop st t (add_first ks v acc)
+          | None => s <- insp k ;; raise "ValueErr" ("element key " ++ s ++ " cannot be treated as str")
+          end
+      | Some _ => s <- insp e ;; raise "ValueErr" ("element " ++ s ++ " must have two elements")
+      | None => s <- insp e ;; raise "ValueErr" ("element " ++ s ++ " cannot be treated as arr")
+      end
+  end.
+
+Fixpoint arr_M_loop (st : state) (l : list val) (sc ns : list (val * val)) : M (list (val * val) * list (val * val)) :=
+  match l with
+  | [] => ret (sc, ns)
+  | e :: t =>
+      match as_arr W st e with
+      | Some (_, [k; v]) => if is_scalar k then arr_M_loop st t (scalar_add_first k v sc) ns
+                            else arr_M_loop st t sc (ns ++ [(k, v)])%list
+      | Some _ => s <- insp e ;; raise "ValueErr" ("element " ++ s ++ " must have two elements")
+      | None => s <- insp e ;; raise "ValueErr" ("element " ++ s ++ " cannot be treated as arr")
+      end
+  end.
+
+Fixpoint map_at_loop (env : nat) (k : val) (l : list (val * val)) : M val :=
+  match l with
+  | [] => ret vNil
+  | (k', v) :: t => r <- callprop env k "==" [k'] [] ;;
+                    if is_true r then ret v else map_at_loop env k t
+  end.
+
 Definition call_builtin (env : nat) (b : bfn) (args : list val) (kwargs : kwargs_t) : M val :=
   match b with
   (* ---------- Obj / BaseObj ---------- *)
@@ -1013,16 +1057,7 @@ Definition call_builtin (env : nat) (b : bfn) (args : list val) (kwargs : kwargs
       | a :: x :: _ =>
           st <- get_st ;;
           match as_arr W st a with
-          | Some (_, l) =>
-              (fix go (l : list val) : M val :=
-                 match l with
-                 | [] => ret (VBool false)
-                 | e :: t => r <- catch (callprop env e "==" [x] []) ;;
-                             match r with
-                             | inl v => if is_true v then ret (VBool true) else go t
-                             | inr _ => go t
-                             end
-                 end) l
+          | Some (_, l) => arr_has_loop env x l
           | None => tyerr "\1 must be arr"
           end
       | _ => tyerr "Arr#has? requires at least 2 args"
@@ -1051,20 +1086,7 @@ Definition call_builtin (env : nat) (b : bfn) (args : list val) (kwargs : kwargs
       match as_arr W st self with
       | None => s <- insp self ;; tyerr (s ++ " cannot be treated as arr")
       | Some (_, l) =>
-          ps <- (fix go (l : list val) (acc : list (string * val)) : M (list (string * val)) :=
-                   match l with
-                   | [] => ret acc
-                   | e :: t =>
-                       match as_arr W st e with
-                       | Some (_, [k; v]) =>
-                           match as_str W st k with
-                           | Some (_, ks) => go t (add_first ks v acc)
-                           | None => s <- insp k ;; raise "ValueErr" ("element key " ++ s ++ " cannot be treated as str")
-                           end
-                       | Some _ => s <- insp e ;; raise "ValueErr" ("element " ++ s ++ " must have two elements")
-                       | None => s <- insp e ;; raise "ValueErr" ("element " ++ s ++ " cannot be treated as arr")
-                       end
-                   end) l [] ;;
+          ps <- arr_O_loop st l [] ;;
           new_obj_literal ps
       end
   | B_Arr_M =>
@@ -1073,17 +1095,7 @@ Definition call_builtin (env : nat) (b : bfn) (args : list val) (kwargs : kwargs
       match as_arr W st self with
       | None => s <- insp self ;; tyerr (s ++ " cannot be treated as arr")
       | Some (_, l) =>
-          '(sc, ns) <- (fix go (l : list val) (sc ns : list (val * val)) : M (list (val * val) * list (val * val)) :=
-                   match l with
-                   | [] => ret (sc, ns)
-                   | e :: t =>
-                       match as_arr W st e with
-                       | Some (_, [k; v]) => if is_scalar k then go t (scalar_add_first k v sc) ns
-                                             else go t sc (ns ++ [(k, v)])%list
-                       | Some _ => s <- insp e ;; raise "ValueErr" ("element " ++ s ++ " must have two elements")
-                       | None => s <- insp e ;; raise "ValueErr" ("element " ++ s ++ " cannot be treated as arr")
-                       end
-                   end) l [] [] ;;
+          '(sc, ns) <- arr_M_loop st l [] [] ;;
           ret (VMap (wkv W "Map") sc ns)
       end
   | B_Arr_at =>
@@ -1195,13 +1207,7 @@ Definition call_builtin (env : nat) (b : bfn) (args : list val) (kwargs : kwargs
                 | Some v => ret v
                 | None => base_at args
                 end
-              else
-                (fix go (l : list (val * val)) : M val :=
-                   match l with
-                   | [] => ret vNil
-                   | (k', v) :: t => r <- callprop env k "==" [k'] [] ;;
-                                     if is_true r then ret v else go t
-                   end) ns
+              else map_at_loop env k ns
           | Some _, Some (_, []) => ret vNil
           | _, _ => base_at args
           end
